@@ -128,6 +128,9 @@ class Ctx:
     def finish(self):
         wall = time.time() - self.t0
         evid_dir = os.path.join(VERIF, "evidence")
+        if os.path.realpath(_facts.REPO) != "/repo":
+            # scratch trees (positive controls, mutation trials) never overwrite the real evidence
+            evid_dir = os.path.join(_facts.CACHE, "evidence-scratch")
         os.makedirs(evid_dir, exist_ok=True)
         nontriv = {o["key"] for o in self.obligations if o["nontrivial"] and not o["key"].startswith(("floor:", "anchor-missing"))}
         samples = []
